@@ -5,7 +5,7 @@ CONSTANTS
   AmpsL <- Amps2
   Pin = 2
   Mutant = "none"
-  ExemptKnown = TRUE
+  PreFix = FALSE
   Emit = TRUE
 INVARIANT TableSane
 CHECK_DEADLOCK FALSE
